@@ -302,6 +302,15 @@ def setNumTransitionExemptions (n : Nat) (ds : List Degree) (e : Nat) : Res Nat 
     else if ds.any (fun d => e > ce - 1 + n - d.evalDegree n) then .panic "number of transition exemptions cannot exceed max"
     else .ok e
 
+/-- `AirContext::num_constraint_composition_columns` for trace length `n` and `e` exemptions
+    (usize subtraction: panics in the checked build when the divisor degree exceeds the highest
+    evaluation degree) -/
+def numCompositionColumns (n : Nat) (ds : List Degree) (e : Nat) : Res Nat :=
+  let highest := ds.foldl (fun h d => if d.evalDegree n > h then d.evalDegree n else h) 0
+  if e > n then .panic "attempt to subtract with overflow"
+  else if highest < n - e then .panic "attempt to subtract with overflow"
+  else .ok (max ((highest - (n - e)) / n + 1) 1)
+
 -- ================================================================================ the three base fields
 /-- the code's field operations on raw words (`BaseElement.0`) of one of the three base fields:
     what the driver executes and what WinterProofs/C16Inst.lean instantiates the theorems with -/
